@@ -279,6 +279,23 @@ func (g *gen) responses() []*node {
 		}
 		out = append(out, g.response(code))
 	}
+	if g.r.Chance(1, 6) {
+		// the same code declared again (allowed by the language): repeated codes are grouped by the
+		// serialisers, and some combinations (e.g. two `empty` bodies) cannot be exported to OpenAPI
+		g.feat("repeated-response-codes")
+		for _, nd := range append([]*node(nil), out...) {
+			code := 0
+			fmt.Sscanf(nd.head, "%d", &code)
+			if code == 0 || !g.r.Chance(2, 3) {
+				continue
+			}
+			if g.r.Chance(1, 2) {
+				out = append(out, &node{head: fmt.Sprintf("%d empty", code)}, &node{head: fmt.Sprintf("%d empty", code)})
+			} else {
+				out = append(out, g.response(code))
+			}
+		}
+	}
 	return out
 }
 
